@@ -25,11 +25,14 @@
 (* plus NoOverrun (no page pointer is stored outside a table page) and     *)
 (* SizeIsBytes (size field + unsynced part = bytes streamed).              *)
 (***************************************************************************)
-EXTENDS Naturals, Integers, Sequences, FiniteSets, TLC
+EXTENDS Naturals, Integers, Sequences, FiniteSets, TLC, SequencesExt
 
-CONSTANTS IPC,       \* LogEntry::INLINE_PAGE_CAPACITY (read from the header by the driver: 6)
-          PageSizes, \* page sizes explored by the model checker
-          MaxChunk   \* largest single write explored (0 = any)
+CONSTANTS IPC,        \* LogEntry::INLINE_PAGE_CAPACITY (read from the header by the driver: 6)
+          PageSizes,  \* page sizes explored by the model checker
+          MaxChunk,   \* largest single write explored (0 = any); jumps to every boundary are always explored
+          FanOneBeyond, \* FALSE: page sizes with table fan-out 1 (P = 16) are explored up to the inline capacity only
+                        \* (beyond it the code overruns the table page: finding C20_page16_table_overrun)
+          NearOnly    \* TRUE: only the sizes within 2 of a page / inline / table boundary (large pages)
 
 VARIABLES P,    \* page size of this behaviour
           st,   \* "idle" | "open" | "ended" | "released"
@@ -41,15 +44,15 @@ vars == <<P, st, s, pool, ev>>
 
 Fan(p) == (p - 8) \div 8                     \* (page_size - sizeof(PageTable)) / sizeof(char*)
 NMax(p) == IPC * p + 2 * Fan(p) * p + 2      \* inline capacity + 2 full tables + 2
-Min(a, b) == IF a < b THEN a ELSE b
+Lo(a, b) == IF a < b THEN a ELSE b
 
 \* sizes at which anything changes: page, inline and table boundaries
 Boundaries(p) == {0, p, 2 * p, (IPC - 1) * p, IPC * p, (IPC + 1) * p,
                   (IPC - 1) * p + Fan(p) * p, (IPC - 1) * p + Fan(p) * p + p,
                   (IPC - 1) * p + 2 * Fan(p) * p, (IPC - 1) * p + 2 * Fan(p) * p + p}
-Near(p) == {n \in 0..NMax(p) : \E b \in Boundaries(p) : n + 2 >= b /\ n <= b + 2}
+Near(p) == {n \in UNION {(IF b >= 2 THEN b - 2 ELSE 0)..(b + 2) : b \in Boundaries(p)} : n <= NMax(p)}
 \* every size for small pages; the neighbourhood of every boundary for large ones
-Allowed(p) == IF p <= 256 THEN 0..NMax(p) ELSE Near(p)
+Allowed(p) == IF Fan(p) < 2 /\ ~FanOneBeyond THEN 0..IPC * p ELSE IF NearOnly THEN Near(p) ELSE 0..NMax(p)
 
 NoEv == [k |-> "", n |-> 0]
 
@@ -60,8 +63,8 @@ S0(base) == [
   cur |-> [w |-> 0, idx |-> 0, end |-> IPC], \* _pages / _pages_end: w = 0 inline, else table id
   pg |-> 0, pp |-> 0, sp |-> 0, ep |-> 0,    \* put area: page, pptr, _sync_point, epptr (offsets)
   base |-> base, nalloc |-> base,            \* pages base+1 .. nalloc were allocated for this entry
-  kind |-> << >>,                            \* page id -> "data" | "table"
-  content |-> << >>,                         \* data page id -> [start, len]
+  pgs |-> << >>,                             \* pgs[id - base] = [kind: "data" | "table", start, len]: the bytes of a data
+                                             \* page are the stream interval start .. start+len-1
   wr |-> 0,                                  \* ghost: bytes streamed
   allocs |-> << >>,                          \* ghost: pages allocated by the last operation
   overrun |-> FALSE, spill |-> << >>         \* page pointers stored past the end of a table page
@@ -77,7 +80,7 @@ Sync(x) == IF x.pp > x.sp THEN [x EXCEPT !.lsize = x.lsize + (x.pp - x.sp), !.sp
 OverflowPageTable(x, F) ==
   LET T == x.nalloc + 1
       fresh == [next |-> 0, slots |-> [i \in 0..F - 1 |-> 0]]
-      y == [x EXCEPT !.nalloc = T, !.kind = Ext(x.kind, T, "table"), !.allocs = Append(x.allocs, T)]
+      y == [x EXCEPT !.nalloc = T, !.pgs = Append(x.pgs, [kind |-> "table", start |-> 0, len |-> 0]), !.allocs = Append(x.allocs, T)]
   IN IF x.cur.w = 0 /\ x.cur.idx = IPC
      THEN \* inline table exhausted: the last inline pointer moves into slot 0, head := new table
           [y EXCEPT !.tab = Ext(x.tab, T, [fresh EXCEPT !.slots = IF F > 0 THEN [fresh.slots EXCEPT ![0] = x.inl[IPC - 1]] ELSE fresh.slots]),
@@ -93,8 +96,7 @@ Overflow(x, p) ==
   LET F == Fan(p)
       x1 == Sync(x)
       page == x1.nalloc + 1
-      x2 == [x1 EXCEPT !.nalloc = page, !.kind = Ext(x1.kind, page, "data"),
-                       !.content = Ext(x1.content, page, [start |-> x1.wr, len |-> 0]),
+      x2 == [x1 EXCEPT !.nalloc = page, !.pgs = Append(x1.pgs, [kind |-> "data", start |-> x1.wr, len |-> 0]),
                        !.allocs = Append(x1.allocs, page)]
       x3 == IF x2.cur.idx = x2.cur.end THEN OverflowPageTable(x2, F) ELSE x2
       c == x3.cur
@@ -103,13 +105,15 @@ Overflow(x, p) ==
             ELSE [x3 EXCEPT !.overrun = TRUE, !.spill = Append(x3.spill, page)]
   IN [x4 EXCEPT !.cur.idx = c.idx + 1, !.pg = page, !.pp = 0, !.sp = 0, !.ep = p]
 
-\* xsputn / sputc of k bytes
-RECURSIVE Put(_, _, _)
-Put(x, k, p) ==
-  IF k = 0 THEN x
-  ELSE IF x.pp = x.ep THEN Put(Overflow(x, p), k, p)
-  ELSE LET m == Min(k, x.ep - x.pp)
-       IN Put([x EXCEPT !.pp = x.pp + m, !.content[x.pg].len = x.content[x.pg].len + m, !.wr = x.wr + m], k - m, p)
+\* xsputn / sputc of k bytes: copy what fits, overflow, copy ... (iterated with FoldLeft: no deep recursion)
+PutStep(a, p) ==
+  LET x == a.x
+  IN IF a.k = 0 THEN a
+     ELSE IF x.pp = x.ep THEN [x |-> Overflow(x, p), k |-> a.k]
+     ELSE LET m == Lo(a.k, x.ep - x.pp)
+              j == x.pg - x.base
+          IN [x |-> [x EXCEPT !.pp = x.pp + m, !.pgs[j].len = x.pgs[j].len + m, !.wr = x.wr + m], k |-> a.k - m]
+Put(x, k, p) == FoldLeft(LAMBDA a, i : PutStep(a, p), [x |-> x, k |-> k], [i \in 1..2 * (k \div p) + 4 |-> i]).x
 
 AbsSize(x) == x.lsize + (x.pp - x.sp)
 
@@ -142,13 +146,17 @@ Iovec(size, inl, tab, p) ==
 
 IovOf(x, p) == Iovec(AbsSize(x), x.inl, x.tab, p)
 
+\* (TLC re-evaluates LET-bound sequences on every reference inside a state predicate: each clause
+\*  therefore hands the scatter list exactly once to a fold, which is evaluated on a concrete value)
+PageSet(iov) == FoldLeft(LAMBDA acc, g : acc \cup {g.page}, {}, iov)
+
 \* ---- actions -------------------------------------------------------------------------------
 Init ==
   /\ P \in PageSizes
   /\ st = "idle" /\ s = S0(0) /\ pool = {} /\ ev = NoEv
 
 Begin ==
-  /\ st = "idle"
+  /\ st \in {"idle", "released"}     \* the stream buffer is reused for the next entry
   /\ st' = "open" /\ s' = S0(s.nalloc) /\ pool' = {}
   /\ ev' = [k |-> "begin", n |-> 0]
   /\ UNCHANGED P
@@ -170,13 +178,14 @@ End ==
 Release ==
   /\ st = "ended"
   /\ st' = "released"
-  /\ pool' = {IovOf(s, P)[i].page : i \in 1..Len(IovOf(s, P))}
+  /\ pool' = PageSet(IovOf(s, P))
   /\ ev' = [k |-> "release", n |-> 0]
   /\ UNCHANGED <<P, s>>
 
-Chunks == IF MaxChunk = 0 THEN 1..NMax(P) ELSE 1..Min(MaxChunk, NMax(P))
-\* large jumps (to just before every boundary) are always available
-Jumps == {n - s.wr : n \in {b \in Near(P) : b > s.wr}}
+Chunks == IF MaxChunk = 0 THEN 1..NMax(P) ELSE 1..Lo(MaxChunk, NMax(P))
+\* large writes: a first write to the neighbourhood of every boundary; later, to the next allowed size
+Jumps == IF s.wr = 0 THEN {n \in Near(P) : n > 0}
+         ELSE {n - s.wr : n \in {b \in Allowed(P) : b > s.wr /\ \A m \in Allowed(P) : m > s.wr => b <= m}}
 
 Next == Begin \/ (\E k \in Chunks \cup Jumps : Write(k)) \/ End \/ Release
 Spec == Init /\ [][Next]_vars
@@ -186,30 +195,27 @@ Live == st \in {"open", "ended", "released"}
 Pages(x) == x.base + 1..x.nalloc
 
 \* the scatter list describes exactly the streamed bytes 0 .. wr-1, in order
-RECURSIVE Consecutive(_, _, _, _)
-Consecutive(iov, i, off, x) ==
-  IF i > Len(iov) THEN off
-  ELSE LET g == iov[i]
-       IN IF g.len = 0 THEN Consecutive(iov, i + 1, off, x)
-          ELSE IF g.page \in DOMAIN x.content /\ x.content[g.page].start = off /\ g.len <= x.content[g.page].len
-               THEN Consecutive(iov, i + 1, off + g.len, x)
-               ELSE -1
+KindOf(x, id) == IF id \in Pages(x) THEN x.pgs[id - x.base].kind ELSE "foreign"
+Consecutive(iov, x) ==
+  FoldLeft(LAMBDA off, g : IF off < 0 \/ g.len = 0 THEN off
+                           ELSE IF KindOf(x, g.page) = "data" /\ x.pgs[g.page - x.base].start = off /\ g.len <= x.pgs[g.page - x.base].len
+                                THEN off + g.len ELSE -1,
+           0, iov)
 
 SizeIsBytes == Live => AbsSize(s) = s.wr
-BytesRoundTrip == Live => Consecutive(IovOf(s, P), 1, 0, s) = s.wr
+BytesRoundTrip == Live => Consecutive(IovOf(s, P), s) = s.wr
 EachPageListedOnce ==
-  Live => LET iov == IovOf(s, P)
-          IN /\ Len(iov) = Cardinality(Pages(s))
-             /\ {iov[i].page : i \in 1..Len(iov)} = Pages(s)
+  Live => /\ Len(IovOf(s, P)) = Cardinality(Pages(s))     \* as many list entries as pages ...
+          /\ PageSet(IovOf(s, P)) = Pages(s)               \* ... and every page among them: each exactly once
 NoForeignPage ==
-  Live => LET iov == IovOf(s, P)
-          IN \A i \in 1..Len(iov) :
-               /\ iov[i].page \in Pages(s)
-               /\ iov[i].len <= P
-               /\ (iov[i].len = 0) = (s.kind[iov[i].page] = "table")
+  Live => FoldLeft(LAMBDA ok, g : /\ ok
+                                  /\ g.page \in Pages(s)
+                                  /\ g.len <= P
+                                  /\ (g.len = 0) = (KindOf(s, g.page) = "table"),
+                   TRUE, IovOf(s, P))
 PagesConserved == st = "released" => pool = Pages(s)
 NoOverrun == ~s.overrun
 
 \* state identity without the ghost event
-View == <<P, st, s, pool>>
+View == <<P, st, [s EXCEPT !.allocs = << >>], pool>>
 =============================================================================
